@@ -161,7 +161,7 @@ pub fn run(ctx: &Ctx, model: &mut Model, rep: &mut Report) {
         p.max_blocks = if ctx.thorough { 14 } else { 8 };
         // every third document: table cells with inline markup (oracle only: the model renders plain-word tables)
         p.table_markup = i % 3 == 1;
-        let text = gen::document(&mut r, &p);
+        let text = if i % 97 == 5 { gen::long_ordered_list(&mut r) } else { gen::document(&mut r, &p) };
         let nblocks = text.split("\n\n").count();
         rep.case(&text, nblocks >= 2);
         if i < 2 {
